@@ -98,6 +98,8 @@ def run_history(ctx, hist, transport, world):
     else:
         dev = init_device("iscsi://192.0.2.1:3260/iqn.2003-01.org.example:disk/3", initiator_name="iqn.2003-01.org.example:me")
         world["is"].handler = tgt.handle
+    world["sg"].log = []  # the stand-ins keep every event (and its buffers) alive: start each history afresh
+    world["is"].log = []
     results = []
     shadow = {}
     wit0 = {"transport": transport, "bs": bs, "nblocks": nblocks}
